@@ -351,7 +351,16 @@ func WorkerMain(prop, suite string, from, to int, seed int64, tier, outDir strin
 	}
 	cpuBudget := int64(s.CPUSeconds)
 	if cpuBudget == 0 {
-		cpuBudget = 20
+		// Termination in time proportional to the input is what C03 (and the
+		// chunking / pull-decoder properties C02, C18) state: 20 CPU seconds per
+		// case there.  Elsewhere the watchdog only has to end a case that
+		// never returns; a slower but correct implementation must not trip
+		// it, so the budget is 120 CPU seconds.
+		cpuBudget = 120
+		switch prop {
+		case "C02", "C03", "C18":
+			cpuBudget = 20
+		}
 	}
 	if s.Build != "" {
 		cpuBudget *= 8
